@@ -244,8 +244,10 @@ def run_c16(tier, seed):
     sv = seed_val(seed, 0.2, 1.7)
 
     def leaves(d):
-        A = np.array([[1.0, 2.0], [0.5, -1.0]]) if d == 2 else np.arange(d * d, dtype=float).reshape(d, d) / d + np.eye(d)
-        B = (np.array([[0.3, 1j], [2.0, 1 - 1j]]) if d == 2 else (np.arange(d * d).reshape(d, d) * (0.1 + 0.2j) + np.eye(d) * 1j))
+        # (entries kept O(1): the matrix exponential of a badly scaled matrix is ill-conditioned, which would turn a
+        #  comparison between two correct expm implementations into a false alarm)
+        A = np.array([[1.0, 2.0], [0.5, -1.0]]) if d == 2 else np.arange(d * d, dtype=float).reshape(d, d) / (d * d) + 0.5 * np.eye(d)
+        B = (np.array([[0.3, 1j], [2.0, 1 - 1j]]) if d == 2 else (np.arange(d * d).reshape(d, d) * (0.1 + 0.2j) * 3 / (d * d) + np.eye(d) * 0.5j))
         return [("2", 2), ("0.5j", 0.5j), ("seed", sv), ("npA", A), ("npB", B), ("jaxA", "JAX"), ("ctx_n", "n"), ("ctx_x", "x")]
 
     def materialise(leaf, d):
